@@ -53,7 +53,7 @@ Definition new_view_pm {W} (w : W) (s : mstate) :=
 
 Lemma new_loop_pm (W : Type) l : forall (buf : list Z) (escs : list (Z * esctx)) np ps pb patcc patv (pm : @programMap lmap) pmu pmt mb pmtcc
     pmtu pmtv (rm : list (Z * wrappingCounter)) cnt period (mw : W) opts (w : W),
-  NewMuxer_loop1 [] [] (newProgramMap lm_make) (programMap_setUnlocked lm_set) l buf escs np ps pb patcc patv pm pmu pmt mb pmtcc pmtu pmtv rm cnt period mw opts w =
+  NewMuxer_loop1 [] [] (newProgramMap lm_make) (programMap_setUnlocked lm_set) l mw ps period pm pmu pmt pmtu np patv pmtv patcc pmtcc pb mb buf escs cnt rm w opts =
   inr (opts_period l period).
 Proof.
   induction l as [|o r IH]; intros; [reflexivity|].
